@@ -763,7 +763,7 @@ def gen_cases(ctx: Ctx):
     for parts in ([3], [2, 4], [1, 1, 2], [17]):
         cases.append(base_case(rng, "chunks", parts, B=1, rank=2))
     # --- chunks: random chunkings of larger streams
-    for _ in range(ctx.pick(32, 250)):
+    for _ in range(ctx.pick(32, 160)):
         c = rng.random()
         if ctx.quick:
             F = rng.randint(7, 24) if c < 0.8 else (rng.randint(25, 64) if c < 0.93 else rng.choice([65, 127, 128, 129, 200]))
@@ -772,7 +772,7 @@ def gen_cases(ctx: Ctx):
         cases.append(base_case(rng, "chunks", random_chunks(rng, F), B=rng.choice([1, 1, 2, 4]) if F <= 24 else 1,
                                rank=rng.choice([3, 3, 3, 2])))
     # --- histories: reset=True, mixed known rotation, explicit init_state, per-call covariances, prop_cov=False
-    for _ in range(ctx.pick(40, 300)):
+    for _ in range(ctx.pick(40, 200)):
         F = rng.randint(2, 24)
         parts = random_chunks(rng, F)
         n = len(parts)
